@@ -32,6 +32,16 @@ const (
 	// heights only, and the cfheaders are consistent with the list wherever
 	// that is possible.
 	LieRejoin = "cp-rejoin"
+	// LieTruncate: a TRUNCATED cfheaders batch. Every cfheaders answer that
+	// would carry more than Height filter hashes is cut to its first Height
+	// hashes (Height is a COUNT here, not a block height); StopHash,
+	// PrevFilterHeader and the hashes that remain are what the liar would
+	// have served anyway (the true ones, unless it also tells another lie).
+	// With Height a whole number of checkpoint intervals the truncated batch
+	// hashes up to an intermediate filter checkpoint instead of the one the
+	// request ends at. Answers of at most Height hashes are left alone, and
+	// nothing false is ever said about any single block.
+	LieTruncate = "truncate"
 )
 
 // ProvableLies are the lie kinds whose falsity the client can prove.
@@ -61,6 +71,19 @@ type Liar struct {
 	// ToldSeq is the event-log position at which a false filter hash or
 	// checkpoint for the block was FIRST sent (0: no log).
 	ToldSeq map[chainhash.Hash]int64
+	// Truncated counts the cfheaders answers cut short by LieTruncate;
+	// TruncatedWhole those of them cut to a whole number (>= 1) of
+	// checkpoint intervals.
+	Truncated, TruncatedWhole int
+}
+
+// TruncatedBatches returns how many cfheaders answers this liar cut short
+// (LieTruncate), and how many of them to a whole number of checkpoint
+// intervals.
+func (l *Liar) TruncatedBatches() (all, whole int) {
+	l.mu.Lock()
+	defer l.mu.Unlock()
+	return l.Truncated, l.TruncatedWhole
 }
 
 // FirstTold returns the event-log position of the first false value sent
@@ -347,6 +370,13 @@ func (l *Liar) Mutate(p *Peer, req wire.Message, honest []wire.Message) []wire.M
 		}
 		if l.has(LieCount) != nil && len(resp.FilterHashes) > 1 {
 			resp.FilterHashes = resp.FilterHashes[:len(resp.FilterHashes)-1]
+		}
+		if tr := l.has(LieTruncate); tr != nil && tr.Height >= 1 && len(resp.FilterHashes) > int(tr.Height) {
+			resp.FilterHashes = resp.FilterHashes[:tr.Height]
+			l.Truncated++
+			if tr.Height%wire.CFCheckptInterval == 0 {
+				l.TruncatedWhole++
+			}
 		}
 		return []wire.Message{resp}
 
